@@ -91,12 +91,16 @@ CharsetRows == {[kind |-> "classify", a |-> "at-charset-sp", sep |-> "none", b |
 Truncs == {T("open-string-dq", "\"abc", "STRING", "\"abc\""), T("open-string-sq", "'abc", "STRING", "'abc'"),
            T("open-string-esc", "\"a~62 c", "STRING", "\"abc\""),
            T("open-comment", "/* abc", "COMMENT", "/* abc*/"), T("open-comment-star", "/* abc *", "COMMENT", "/* abc **/"),
+           \* the star of the opening is not the star of an end: "/*/" is an open comment whose text is "/"
+           T("open-comment-slash", "/*/", "COMMENT", "/*/*/"), T("open-comment-slash-text", "/*/ abc", "COMMENT", "/*/ abc*/"),
+           T("open-comment-bare", "/*", "COMMENT", "/**/"), T("open-comment-2stars", "/**", "COMMENT", "/***/"),
            T("open-url", "url(abc", "URI", "url(abc)"), T("open-url-upper", "URL(abc", "URI", "URL(abc)"), T("open-url-esc", "u~72l(abc", "URI", "url(abc)"),
            T("open-url-esc2", "~75 rl(abc", "URI", "url(abc)"), T("open-url-dq", "url(\"abc", "URI", "url(\"abc\")"),
            T("open-url-sq", "url( 'abc", "URI", "url( 'abc')"), T("open-url-empty", "url(", "URI", "url()")}
 TruncRows == {[kind |-> "classify", a |-> p.id, sep |-> s, b |-> t.id, texts |-> <<p.text, t.text>>,
                expect |-> Exp(p) \o SepTok(s) \o <<[type |-> t.type, value |-> t.value]>>, full |-> TRUE] :
-                  p \in {x \in Toks : x.id \in {"ident", "semicolon", "lbrace", "colon", "at-import", "number"}}, s \in {"sp", "lf"}, t \in Truncs}
+                  p \in {x \in Toks : x.id \in {"ident", "semicolon", "lbrace", "colon", "at-import", "number", "comment", "comment-stars", "string-dq"}},
+                  s \in {"sp", "lf"}, t \in Truncs}
 \* the same unterminated string twice: in the middle of the input (ended by the line break: INVALID) and at its end (completed)
 Tk(t, v) == [type |-> t, value |-> v]
 EchoRows == {[kind |-> "classify", a |-> "open-string-mid", sep |-> "sp", b |-> "open-string-end", texts |-> <<"zz " \o q \o "abc^nzz", q \o "abc">>,
